@@ -337,6 +337,21 @@ class _XX:
                 lines += ["xl tr " + trk, "xl pset %d" % nd]
             lines += ["xl tr double", "xl set %d" % n, "xl apply 0", "xl reset", "xl apply 0", "xl applybad", "xl poly"]
             out.append(("xxpset:%d" % k, lines))
+        # two handles on one part array (a copied polyline): changing one leaves the parts of the other alone
+        for k in range(10 if tier == "quick" else 80):
+            n = r3.choice([3, 5, 8, 12])
+            dat = [r3.choice(syms) for _ in range(n)]
+            if k % 2 == 0:
+                # one part: hidden ... visible ... hidden
+                nv = r3.randrange(1, n - 1)
+                dat = [syms[0]] + [syms[2]] * nv + [syms[4]] * (n - 1 - nv)
+            lines = ["xl new", "xl range 0 %s %s" % (rg[0], rg[1]), "xl data 0 " + ",".join(dat), "xl apply 0", "xl share"]
+            for m in (n + 2, n, 1, 70000):
+                lines += ["xl set2 %d" % m, "xl dump", "xl poly", "xl dump2"]
+            # (the second handle takes its data from dimension 1, the first one is judged with its own data)
+            lines += ["xl range 1 %s %s" % (rg[0], rg[1]), "xl data 1 " + ",".join(r3.choice(syms) for _ in range(n + 2)),
+                      "xl set2 %d" % (n + 2), "xl apply2 1", "xl dump", "xl dump2", "xl set2 %d" % n, "xl dump", "xl poly"]
+            out.append(("xxshare:%d" % k, lines))
         lines = ["xl new"]
         for c in ["3:3:0:0 2:2:0:0", "3:3:7:0 2:2:0:9", "3:3:0:5 2:2:0:0", "3:2:0:0 2:2:0:0", "65535:65535:0:0 1:0:0:0",
                   "65534:65534:0:0 1:1:0:0", "1:1:65535:0 1:2:0:65535", "5:5:1:0 7:3:0:32768"]:
